@@ -107,7 +107,8 @@ def main(argv) -> int:
                 ent["count"] += 1
             else:
                 n_min = minimised_classes.get(out.violation, 0)
-                rec = {"run": i, "class": out.violation, "detail": out.detail, "info": out.info}
+                rec = {"run": i, "class": out.violation, "detail": out.detail, "info": out.info, "seed": seed,
+                       "worker": {"stripe": stripe, "nstripes": nstripes, "tier": tier}}
                 sc_orig, dig_orig = json.loads(jdump(sc)), out.digest
                 if (out.info or {}).get("wall"):
                     # interrupted by the wall-clock bound: not minimised (every attempt would wait for the bound
